@@ -248,6 +248,12 @@ class OutstationProp(Prop):
                 seq = (seq + 1) & 15
             elif r < 90:
                 if last_req is not None:
+                    if rng.chance(1, 2):
+                        # something changes between the request and its retransmission
+                        typ, idx, cls = rng.choice(points)
+                        tstamp += 1
+                        val = {"binary": str(tstamp & 1), "analog": str(tstamp), "counter": str(tstamp)}[typ]
+                        ops.append(("update", typ, idx, val, 1, tstamp))
                     rx(last_req, MASTER, "none")
                 else:
                     rx(frag(seq, FN["confirm"]), MASTER, "none")
